@@ -96,6 +96,18 @@ func warnInertDeclarations(module *ast.Module) {
 	}
 }
 
+// compiledRoute pairs a route declaration with the bytecode of its own body.
+type compiledRoute struct {
+	route    *ast.Route
+	bytecode []byte
+}
+
+// compiledRouteKey identifies a declaration by method and path: the same path
+// may be declared under several methods.
+func compiledRouteKey(route *ast.Route) string {
+	return fmt.Sprintf("%s %s", route.Method, route.Path)
+}
+
 // setupRoutes handles the common logic of determining execution mode, compiling routes,
 // and setting up the router. Used by both startServer and startDevServerInternal.
 // filePath is the path to the source file, used for resolving relative module imports.
@@ -105,6 +117,7 @@ func setupRoutes(module *ast.Module, filePath string, forceInterpreter ...bool) 
 		useCompiler = false
 	}
 	compiledRoutes = make(map[string][]byte)
+	var compiledList []compiledRoute
 
 	// Any provider injection forces interpreter mode: the VM cannot execute
 	// provider method calls, so a compiled route fails at request time with
@@ -151,7 +164,8 @@ func setupRoutes(module *ast.Module, filePath string, forceInterpreter ...bool) 
 					useCompiler = false
 					break
 				}
-				compiledRoutes[route.Path] = bytecode
+				compiledRoutes[compiledRouteKey(route)] = bytecode
+				compiledList = append(compiledList, compiledRoute{route: route, bytecode: bytecode})
 			}
 		}
 	}
@@ -169,15 +183,16 @@ func setupRoutes(module *ast.Module, filePath string, forceInterpreter ...bool) 
 	interp := newConfiguredInterpreter()
 
 	if useCompiler {
-		for _, item := range module.Items {
-			if route, ok := item.(*ast.Route); ok {
-				bytecode := compiledRoutes[route.Path]
-				regErr := registerCompiledRoute(router, route, bytecode, wsServer.GetHub())
-				if regErr != nil {
-					printWarning(fmt.Sprintf("Failed to register route %s: %v", route.Path, regErr))
-				} else {
-					printInfo(fmt.Sprintf("Compiled route: %s %s", route.Method, route.Path))
-				}
+		// Each declaration is registered with the bytecode compiled from its own
+		// body. Looking the bytecode up by path alone handed GET /x the body of a
+		// POST /x declared later (and an earlier duplicate the later one's body).
+		for _, cr := range compiledList {
+			route := cr.route
+			regErr := registerCompiledRoute(router, route, cr.bytecode, wsServer.GetHub())
+			if regErr != nil {
+				printWarning(fmt.Sprintf("Failed to register route %s: %v", route.Path, regErr))
+			} else {
+				printInfo(fmt.Sprintf("Compiled route: %s %s", route.Method, route.Path))
 			}
 		}
 
